@@ -238,6 +238,11 @@ SELECTOR_ROWS = [
     ("{_ ex:p _}", "raise"),
     ("{FOCUS ex:p}", "raise"),
     ("{FOCUS unknown:p _}", "raise"),
+    ('SPARQL "select ?n where {?n a ex:C}"', ("sparql", "select ?n where {?n a ex:C}", "n")),
+    ("SPARQL 'SELECT ?node WHERE { ?node ex:p ?o }'", ("sparql", "SELECT ?node WHERE { ?node ex:p ?o }", "node")),
+    ("SPARQL select ?n where {?n a ex:C}", "raise"),
+    ('SPARQL "select ?a ?b where {?a ex:p ?b}"', "raise"),
+    ('SPARQL "ask {?n a ex:C}"', "raise"),
 ]
 
 
@@ -256,12 +261,16 @@ def selector_table(ctx, clause):
         outs = ev.outcomes(f, {"raw_selector": raw}, {"self._prefix_namespace_dict": dict(SEL_PREFIXES), "self._sgraph": G})
         got = None
         if len(outs) == 1 and outs[0][0] == "raise":
-            got = "raise"
+            got = "raise" if outs[0][1] == "ValueError" else ("raises", outs[0][1])
         elif len(outs) == 1 and outs[0][0] == "return" and isinstance(outs[0][1], tuple) and outs[0][1][0] == "new":
             _, cname, a, kw = outs[0][1]
             kw = dict(kw)
             if cname == "NodeSelectorNoSparql":
                 got = ("node", kw.get("target_node"))
+            elif cname == "NodeSelectorSparql" and isinstance(kw.get("sparql_query_selector"), str) and isinstance(want, tuple) and want[0] == "sparql":
+                q = kw["sparql_query_selector"]
+                got = ("sparql", want[1] if q.endswith(want[1]) and all(("PREFIX %s: <%s>" % kv) in q for kv in SEL_PREFIXES.items()) else q,
+                       kw.get("id_variable_query"))
             elif cname == "NodeSelectorSparql" and isinstance(kw.get("sparql_query_selector"), str):
                 q = kw["sparql_query_selector"]
                 m = _re.search(r"SELECT\s+(\?\w+)\s+WHERE\s*\{(.*?)\.?\s*\}", q, _re.S)
